@@ -28,6 +28,20 @@ Theorem C14_assign_err : forall bits ms, assign bits ms = None ->
   snd (members_z (init bits) 0 ms) <> [].
 Proof. exact members_z_assign_err. Qed.
 
+(* a rejected member leaves the state unchanged: Set_/SetNext returning Err (repeated name or
+   value, out of range, no next value) do not move [last] or the maps, and the later members are
+   numbered as if the rejected statement were absent ("highest value assigned to any EARLIER
+   MEMBER"); [wf bits e] holds in every state the loop reaches (C14_reachable_wf) *)
+Theorem C14_rejected_member_leaves_state : forall bits e idx name ov rest, wf bits e ->
+  set_member_z e name ov = Err ->
+  members_z e idx ((name, ov) :: rest)
+    = (fst (members_z e (S idx) rest), idx :: snd (members_z e (S idx) rest)) /\
+  (forall vs, assign_from bits (ToInt e) rest = Some vs ->
+     ToInt (fst (members_z e idx ((name, ov) :: rest))) = vs).
+Proof. exact rejected_member_leaves_state. Qed.
+Theorem C14_reachable_wf : forall bits ms, wf bits (fst (members_z (init bits) 0 ms)).
+Proof. exact members_z_wf. Qed.
+
 (* T(b): the two views of an enumeration are mutually inverse (whether or not errors were
    recorded on the way: a rejected member leaves the type unchanged) *)
 Theorem C14_inverse : forall ms e errs, run_members false ms = Ok (e, errs) ->
@@ -95,5 +109,9 @@ Example C14_assign_ex :
   assign false [(nm_a, None); (nm_b, Some 0)] = None /\
   assign false [(nm_a, Some 7); (nm_b, Some 2); ([99%N], None)] = Some [(nm_a, 7); (nm_b, 2); ([99%N], 8)].
 Proof. vm_compute. repeat split. Qed.
+Example C14_rejected_ex :     (* a; a; b  ==>  the second a is rejected, b = 1 *)
+  exists e, members_z (init false) 0 [(nm_a, None); (nm_a, None); (nm_b, None)] = (e, [1%nat]) /\
+            ToInt e = [(nm_a, 0); (nm_b, 1)] /\ set_member_z (fst (members_z (init false) 0 [(nm_a, None)])) nm_a None = Err.
+Proof. eexists. vm_compute. repeat split. Qed.
 Example C14_err_ex : exists e, run_members false [(nm_a, Some s_max31); (nm_b, None)] = Ok (e, [1%nat]).
 Proof. eexists. vm_compute. reflexivity. Qed.
